@@ -24,7 +24,7 @@ for X in ("A", "B"):
     r = json.load(open(out)); os.unlink(out)
     caught = r["props"].get(pid, {}).get("rc") == 1
     allres = None
-    if not caught or run_all:
+    if run_all:
         p2 = subprocess.run([os.path.join(here, "eval_mutant.py"), patch], capture_output=True, text=True, env=dict(os.environ, EVAL_OUT=out))
         if os.path.exists(out):
             allres = json.load(open(out)); os.unlink(out)
